@@ -234,3 +234,227 @@ theorem insertAfter_same_nomerge {f : Forest} {q : Nat} {vq : Value} {l : List H
       hrc hkrn (by rw [← hnx]; exact hsame) hocc
 
 end XotModel
+
+namespace XotModel
+open HTree Spec
+
+/-- Inserting a non-text node keeps a list free of adjacent text. -/
+theorem noAdj_insert_nontext {P Q : List HTree} {t : HTree} (h : noAdjacentText (P ++ Q) = true)
+    (ht : ¬ t.value.isText = true) : noAdjacentText (P ++ t :: Q) = true :=
+  noAdj_insert h (fun _ _ h' => ht h'.2) (fun _ _ h' => ht h'.1)
+
+/-- `insert_after` within one child list when the two text nodes around the moved node were
+    merged (the moved node is then not a text node, and the reference may be the consumed one). -/
+theorem insertAfter_same_merged {f : Forest} {q : Nat} {vq : Value} {l' : List HTree} {a t b : HTree}
+    {r' : List HTree} {x y : Str} {A : List HTree} {kr : HTree} {B : List HTree} {ref' : Nat}
+    (inv : f.Inv) (norm : f.Normal)
+    (so : SiteAt f q vq ((l' ++ [a]) ++ t :: b :: r')) (hc : f.consolidation = true)
+    (hx : a.value = .text x) (hy : b.value = .text y) (ht : textData t = none)
+    (hAB : A ++ kr :: B = (l' ++ [a]) ++ t :: b :: r')
+    (hrc : kr.handle ≠ t.handle) (hkrn : kr.value.isNormal = true) (hnt : t.value.isNormal = true)
+    (href : ref' = if b.handle = kr.handle then a.handle else kr.handle)
+    (hsame : ¬ nextOf B kr = some t.handle)
+    (hocc : Dest.occupiedBy f t.handle (.after kr.handle) = false) :
+    (insertAfterTail (f.editAt (some q) (fun _ => l' ++ a.setValue (.text (x ++ y)) :: t :: r')) ref' t.handle).1 =
+      specMove (Keep.resident t.handle) (.after kr.handle) t.handle f := by
+  have nd := so.nd
+  have sq : SiteAt f q vq (A ++ kr :: B) := hAB ▸ so
+  have hgc : f.get? t.handle = some t := so.getKid
+  have hpar : f.parent? kr.handle = some q := Forest.parent?_of_ctx sq.ctx
+  have hqt : q ∉ handles t := by
+    intro hin
+    apply so.nodupKids.2
+    rw [handlesList_append, handlesList_cons]
+    exact List.mem_append_right _ (List.mem_append_left _ hin)
+  obtain ⟨ndL, _⟩ := so.nodupKids
+  obtain ⟨tl, tr⟩ := tops_ne_of_nodup ndL
+  have hnott : ¬ t.value.isText = true := by
+    intro h
+    obtain ⟨z, hz⟩ := isText_iff_textData.1 h
+    rw [ht] at hz; cases hz
+  have hstrict := (validTree_node (so.valid (norm hc))).2.2.1 rfl
+  obtain ⟨hla, htbr, _⟩ := noAdj_append.1 hstrict
+  have hbr : noAdjacentText (b :: r') = true := noAdj_tail htbr
+  have hak : a.handle ≠ t.handle := tl a (by simp)
+  -- the specification as one edit
+  have F0 := far_same (keep := Keep.resident t.handle) so
+  have hsite : Dest.site f (.after kr.handle) = some q := by simp only [Dest.site]; exact hpar
+  have hspec := F0.spec (.after kr.handle) hocc hsite (fun ψ hk hψ => natFor_insertAfterTop hk _ hψ)
+  simp only [Dest.insert] at hspec
+  have hYc : ((f.editAt (some q) (dropTop t.handle)).editAt (some q) (insertAfterTop kr.handle t)).consolidation = true := by
+    rw [Forest.editAt_consolidation, Forest.editAt_consolidation]; exact hc
+  rw [hspec, mergeAt_on hYc, Forest.editAt_editAt, Forest.editAt_editAt]
+  have hdrop : dropTop t.handle ((l' ++ [a]) ++ t :: b :: r') = (l' ++ [a]) ++ b :: r' := dropTop_mid rfl tl tr
+  -- the model
+  let a' := a.setValue (.text (x ++ y))
+  have sX : SiteAt (f.editAt (some q) (fun _ => l' ++ a' :: t :: r')) q vq ((l' ++ [a']) ++ t :: r') := by
+    have := so.edit (fun _ => l' ++ a' :: t :: r') (by
+      simp only [a', handlesList_append, handlesList_cons, setValue_handles, handlesList_nil, List.append_nil,
+        List.append_assoc]
+      refine (List.Sublist.refl _).append ((List.Sublist.refl _).append ((List.Sublist.refl _).append ?_))
+      exact List.sublist_append_right _ _)
+    simpa using this
+  obtain ⟨ndLX, _⟩ := sX.nodupKids
+  obtain ⟨tlX, trX⟩ := tops_ne_of_nodup ndLX
+  have hXget : (f.editAt (some q) (fun _ => l' ++ a' :: t :: r')).get? t.handle = some t := sX.getKid
+  have hXpar : (f.editAt (some q) (fun _ => l' ++ a' :: t :: r')).parent? t.handle = some q :=
+    Forest.parent?_of_ctx sX.ctx
+  have hr2 : ∀ rf nx, (f.editAt (some q) (fun _ => l' ++ a' :: t :: r')).addConsolidate t.handle rf nx =
+      (f.editAt (some q) (fun _ => l' ++ a' :: t :: r'), false) := by
+    intro rf nx
+    apply Forest.addConsolidate_not_text
+    rw [Forest.textOf_of_get hXget]; exact ht
+  -- the cut forest
+  have hXcut : (f.editAt (some q) (fun _ => l' ++ a' :: t :: r')).editAt (some q) (dropTop t.handle) =
+      f.editAt (some q) (fun _ => (l' ++ [a']) ++ r') := by
+    rw [Forest.editAt_editAt]
+    apply so.congr
+    simp only [Function.comp]
+    have : l' ++ a' :: t :: r' = (l' ++ [a']) ++ t :: r' := by simp
+    rw [this, dropTop_mid rfl tlX trX]
+  have sYm : SiteAt (f.editAt (some q) (fun _ => (l' ++ [a']) ++ r')) q vq ((l' ++ [a']) ++ r') := by
+    have := so.edit (fun _ => (l' ++ [a']) ++ r') (by
+      simp only [a', handlesList_append, handlesList_cons, setValue_handles, handlesList_nil, List.append_nil,
+        List.append_assoc]
+      refine (List.Sublist.refl _).append ((List.Sublist.refl _).append ?_)
+      exact (List.sublist_append_right _ _).trans (List.sublist_append_right _ _))
+    exact this
+  -- the model's result, given where the (rewritten) reference sits in the two lists
+  have model : ∀ (P Q P2 Q2 : List HTree) (w w2 : HTree), w.handle = ref' → w2.handle = ref' →
+      (l' ++ [a']) ++ t :: r' = P ++ w :: Q → (l' ++ [a']) ++ r' = P2 ++ w2 :: Q2 →
+      (insertAfterTail (f.editAt (some q) (fun _ => l' ++ a' :: t :: r')) ref' t.handle).1 =
+        f.editAt (some q) (fun _ => P2 ++ w2 :: t :: Q2) := by
+    intro P Q P2 Q2 w w2 hw hw2 e1 e2
+    unfold insertAfterTail
+    rw [hr2]
+    simp only [Bool.false_eq_true, if_false]
+    have sX' : SiteAt (f.editAt (some q) (fun _ => l' ++ a' :: t :: r')) q vq (P ++ w :: Q) := e1 ▸ sX
+    have hne : w.handle ≠ t.handle := by
+      rw [hw, href]
+      split
+      · exact hak
+      · exact hrc
+    have := Forest.checkedInsertAfter_ok hXget sX' hqt hne
+    rw [hw] at this
+    rw [this]
+    simp only [if_true]
+    rw [hXpar, hXcut]
+    have sY' : SiteAt (f.editAt (some q) (fun _ => (l' ++ [a']) ++ r')) q vq (P2 ++ w2 :: Q2) := e2 ▸ sYm
+    have hctx := sY'.ctx
+    rw [hw2] at hctx
+    rw [Forest.placeAfter_of_ctx t sY'.nd hctx, Forest.editAt_editAt]
+    apply so.congr
+    simp only [Function.comp]
+    rw [e2]
+    obtain ⟨ndY, _⟩ := sY'.nodupKids
+    have := insertAfterTop_mid (A := P2) (w := w2) (B := Q2) t (tops_ne_of_nodup ndY).1
+    rw [hw2] at this
+    exact this
+  have hkt : kr ≠ t := fun e => hrc (by rw [e])
+  have htopsAB : ∀ k ∈ A, k.handle ≠ kr.handle := (tops_ne_of_nodup (hAB ▸ ndL)).1
+  rcases split_two hAB hkt with ⟨m, hA, hr⟩ | ⟨m, hl, hB⟩
+  · cases m with
+    | nil =>
+      -- the reference is the consumed text node `b`
+      simp only [List.nil_append] at hr
+      injection hr with e1 e2
+      subst e1 e2
+      have href' : ref' = a.handle := by rw [href, if_pos rfl]
+      rw [model l' (t :: r') l' r' a' a' (by simp [a', setValue_handle, href']) (by simp [a', setValue_handle, href'])
+        (by simp) (by simp)]
+      apply so.congr
+      simp only [Function.comp]
+      rw [hdrop]
+      have e3 : (l' ++ [a]) ++ b :: r' = (l' ++ [a]) ++ b :: r' := rfl
+      have htopsb : ∀ k ∈ l' ++ [a], k.handle ≠ b.handle := by
+        intro k hk
+        have := htopsAB k (by rw [hA]; exact List.mem_append_left _ hk)
+        exact this
+      rw [insertAfterTop_mid (A := l' ++ [a]) (w := b) (B := r') t htopsb]
+      have e4 : (l' ++ [a]) ++ b :: t :: r' = l' ++ a :: b :: (t :: r') := by simp
+      rw [e4, mergeRuns_seam _ hx hy hla (by
+        rw [noAdj_cons_cons, Bool.and_eq_true]
+        refine ⟨by simp [hnott], ?_⟩
+        have : t :: r' = [] ++ t :: r' := rfl
+        rw [this]
+        exact noAdj_insert_nontext (by simpa using noAdj_tail hbr) hnott)]
+      simp [join, Keep.resident, hak, a']
+    | cons b0 Z =>
+      -- the reference stands behind the merged pair
+      simp only [List.cons_append] at hr
+      injection hr with e1 e2
+      subst e1
+      subst e2
+      have hbk : b.handle ≠ kr.handle := by
+        have := htopsAB b (by rw [hA]; simp)
+        exact this
+      have href' : ref' = kr.handle := by rw [href, if_neg hbk]
+      rw [model ((l' ++ [a']) ++ t :: Z) B ((l' ++ [a']) ++ Z) B kr kr href'.symm href'.symm (by simp) (by simp)]
+      apply so.congr
+      simp only [Function.comp]
+      rw [hdrop]
+      have htopsk : ∀ k ∈ (l' ++ [a]) ++ b :: Z, k.handle ≠ kr.handle := by
+        intro k hk
+        apply htopsAB k
+        rw [hA]
+        simp only [List.mem_append, List.mem_cons, List.mem_singleton] at hk ⊢
+        rcases hk with (h | h) | h | h
+        · exact Or.inl (Or.inl h)
+        · exact Or.inl (Or.inr h)
+        · exact Or.inr (Or.inr (Or.inl h))
+        · exact Or.inr (Or.inr (Or.inr h))
+      have e3 : (l' ++ [a]) ++ b :: (Z ++ kr :: B) = ((l' ++ [a]) ++ b :: Z) ++ kr :: B := by simp
+      rw [e3, insertAfterTop_mid t htopsk]
+      have e4 : ((l' ++ [a]) ++ b :: Z) ++ kr :: t :: B = l' ++ a :: b :: (Z ++ kr :: t :: B) := by simp
+      rw [e4, mergeRuns_seam _ hx hy hla (by
+        have : b :: (Z ++ kr :: t :: B) = (b :: Z ++ [kr]) ++ t :: B := by simp
+        rw [this]
+        apply noAdj_insert_nontext _ hnott
+        have : (b :: Z ++ [kr]) ++ B = b :: (Z ++ kr :: B) := by simp
+        rw [this]; exact hbr)]
+      simp [join, Keep.resident, hak, a']
+  · -- the reference stands before the merged pair
+    have hm : m ≠ [] := by
+      intro em
+      apply hsame
+      rw [hB, em]
+      have h1 : t.value.category = .normal := by simpa [Value.isNormal] using hnt
+      have h2 : kr.value.category = .normal := by simpa [Value.isNormal] using hkrn
+      simp [nextOf, h1, h2]
+    obtain ⟨W, a0, em⟩ : ∃ W a0, m = W ++ [a0] := by
+      cases hlm : m.getLast? with
+      | none => exact absurd (List.getLast?_eq_none_iff.1 hlm) hm
+      | some k => exact ⟨_, k, (List.getLast?_eq_some_iff.1 hlm).choose_spec⟩
+    subst em
+    have e0 : l' ++ [a] = (A ++ kr :: W) ++ [a0] := by rw [hl]; simp
+    obtain ⟨el, ea⟩ := List.append_inj' e0 rfl
+    have ea' : a = a0 := by simpa using ea
+    subst ea'
+    subst el
+    have hbk : b.handle ≠ kr.handle := by
+      intro e
+      have := (tops_ne_of_nodup ndL).2 b (by simp)
+      have h2 := tl kr (by simp)
+      -- both `kr` (in `l`) and `b` (in `r`) are children; equal handles contradict distinctness
+      obtain ⟨m1, m2, m3, _⟩ := nodup_mid ndL
+      have hkin : kr.handle ∈ handlesList ((A ++ kr :: W) ++ [a]) :=
+        handle_mem_handlesList (by simp)
+      have hbin : b.handle ∈ handlesList (b :: r') := handle_mem_handlesList (by simp)
+      exact m3 _ hkin (e ▸ hbin)
+    have href' : ref' = kr.handle := by rw [href, if_neg hbk]
+    rw [model A (W ++ a' :: t :: r') A (W ++ a' :: r') kr kr href'.symm href'.symm (by simp) (by simp)]
+    apply so.congr
+    simp only [Function.comp]
+    rw [hdrop]
+    have e3 : ((A ++ kr :: W) ++ [a]) ++ b :: r' = A ++ kr :: (W ++ a :: b :: r') := by simp
+    rw [e3, insertAfterTop_mid t htopsAB]
+    have e4 : A ++ kr :: t :: (W ++ a :: b :: r') = (A ++ kr :: t :: W) ++ a :: b :: r' := by simp
+    rw [e4, mergeRuns_seam _ hx hy (by
+      have : (A ++ kr :: t :: W) ++ [a] = (A ++ [kr]) ++ t :: (W ++ [a]) := by simp
+      rw [this]
+      apply noAdj_insert_nontext _ hnott
+      have : (A ++ [kr]) ++ (W ++ [a]) = (A ++ kr :: W) ++ [a] := by simp
+      rw [this]; exact hla) hbr]
+    simp [join, Keep.resident, hak, a']
+
+end XotModel
